@@ -82,12 +82,17 @@ def build_harness(profile='debug'):
         lock = os.path.join(h, 'Cargo.lock')
         if not os.path.exists(lock):
             sh(f'cp {REPO}/Cargo.lock {lock}')
-        flag = '--release' if profile == 'release' else ''
+        flag = {'release': '--release',
+                # the crate's other feature configurations (C20): no default features / full (= parallel + pretty-debug)
+                'nodefault': f'--no-default-features --target-dir {BUILD}/harness-nodefault',
+                'full': f'--features pretty --target-dir {BUILD}/harness-full'}.get(profile, '')
         rc, out = sh(f'timeout 900 cargo build --offline {flag} 2>&1', cwd=h, timeout=1000)
         return rc == 0, out
 
 
 def harness_exe(profile='debug'):
+    if profile in ('nodefault', 'full'):
+        return os.path.join(BUILD, f'harness-{profile}', 'debug', 'mxh')
     return os.path.join(BUILD, 'harness', profile, 'mxh')
 
 
